@@ -681,4 +681,5 @@ func runC14Bytes(ctx *Ctx) {
 func runC14(ctx *Ctx) {
 	runC14Numbers(ctx)
 	runC14Strings(ctx)
+	runC14Format(ctx)
 }
